@@ -91,8 +91,18 @@ func checkOut(c OutCase) pbt.Verdict {
 	}
 	var want [3][]string // per stream
 	total := 0
+	emptyWritten := 0
 	for k, l := range c.Launches {
 		for i, w := range l.Writes {
+			if w.Len < 0 {
+				// a truly empty line (`echo` without arguments): it is a line like any other
+				emptyWritten++
+				total++
+				if !e.Do(sc.Step{Op: sc.OpLine, Proc: "p0", Stream: w.Stream, Text: "", NoSettle: true}) {
+					return fail("harness could not hand the empty line %d of launch %d to the command", i, k)
+				}
+				continue
+			}
 			line := payload(w.Stream, k, i, w.Len)
 			want[w.Stream] = append(want[w.Stream], line)
 			total++
@@ -152,9 +162,23 @@ func checkOut(c OutCase) pbt.Verdict {
 			}
 		}
 	}
-	min := total
-	if c.LogLength < min {
-		min = c.LogLength
+	// empty lines cannot carry a marker: they are counted. Restarts add one blank separator each, so
+	// the count is exact for a single launch and bounded otherwise (as long as nothing was trimmed).
+	if emptyWritten > 0 && total+len(c.Launches) <= c.LogLength {
+		emptyHave := 0
+		for _, l := range got {
+			if l == "" {
+				emptyHave++
+			}
+		}
+		if emptyHave < emptyWritten || emptyHave > emptyWritten+len(c.Launches)-1 {
+			return fail("in-memory log holds %d empty lines, the command wrote %d (launches %d)", emptyHave, emptyWritten, len(c.Launches))
+		}
+		v.Labels = append(v.Labels, "empty-lines")
+	}
+	min := total - emptyWritten
+	if c.LogLength-emptyWritten < min {
+		min = c.LogLength - emptyWritten
 	}
 	// restarts add one blank separator line each to the buffer; they may displace marked lines only beyond log_length
 	if marked < min-(len(c.Launches)-1) {
@@ -284,7 +308,7 @@ func genOut(t *rapid.T) OutCase {
 		l := OutLaunch{NoFinalNL: pbt.Pct(t, 45), Burst: pbt.Pct(t, 50), Code: pbt.Pick(t, []int{0, 1})}
 		n := pbt.Pick(t, []int{0, 1, 2, 3, 5, 12, 40, 150})
 		for i := 0; i < n; i++ {
-			l.Writes = append(l.Writes, OutWrite{Stream: pbt.Pick(t, []int{1, 1, 2}), Len: pbt.Pick(t, []int{0, 1, 1, 8, 80, 80, 4095, 4096, 4097, 65537})})
+			l.Writes = append(l.Writes, OutWrite{Stream: pbt.Pick(t, []int{1, 1, 2}), Len: pbt.Pick(t, []int{0, 1, 1, 8, 80, 80, 4095, 4096, 4097, 65537, -1})})
 		}
 		if n > 0 && n <= 3 && pbt.Pct(t, 10) {
 			l.Writes[0].Len = 262144
